@@ -60,6 +60,11 @@ CHECKS = {
     category="model_checking", design_ref="4 C03",
     text="TLC certifies candidate (witness table, measurement set) pairs from six constructive families (realisable, replicated and nested with cancelling weighted residuals, boundary optima, cyclic, random perturbations) by checking the KKT conditions in integer arithmetic, and on the small instances confirms by brute force over every non-negative integer table with the same total that no table does better (OracleSound) and that L(q)-L* <= sum q (G_q - min G_q) (GapBound). Each certified instance is estimated with MD, RDA and IG (3000 iterations; a third of them after an earlier call with other answers on the same engine); the loss recomputed from model.project must lie in [L*-1e-9, L*+1e-4 max(1,L0-L*)] and agree with the loss of model.datavector; runs of 1,2,5,50 iterations must not be worse than uniform and their hook-H2 streams must be behaviours of the line-search spec. Noisy inputs with given or estimated total are decided by the gap bound (<= 1e-2 of its value at the uniform start).",
     note="Level for the convergence clause: exploration against a model-checked oracle (fixed 3000 iterations; rate not derived). Gap bound evaluated in floats by the driver. L2 metric only."),
+ "C11": dict(
+    technique="TLA+ spec of column-by-column record generation (spec/synth/Synthetic.tla: Separation and CondFaithful for every structure x elimination order, apportionment outcomes) model-checked by TLC; hook-H3 traces validated by spec/synth/SynthTrace.tla; n-independent rounding bound checked on real runs",
+    category="model_checking", design_ref="4 C11",
+    text="TLC checks, for every clique structure of the catalogue and EVERY elimination order, that the conditioning set the code uses separates the new column from the other generated columns in the triangulated graph and that the corresponding marginal identity P(col|used)=P(col|proj) holds in the integer semiring, and that every +1-on-distinct-fractional-cells outcome is an apportionment with error < 1. Real synthetic_data runs (zero-probability cells, totals, rows 1..1e4 (thorough 1e6), round/sample, repeated calls on a model with cached marginals) are checked for row count, value ranges, empty impossible cells and an n-independent rounding bound on every clique; their H3 traces must name exactly the spec's conditioning sets, condition on exactly the joint's integer marginal at each group, and produce an apportionment (round) or a histogram supported on the positive cells (sample).",
+    note="numpy's samplers are trusted (no statistical test); traces validated for rows <= 400 (32-bit TLC integers)."),
 }
 
 NOT_YET = "check not built yet (work in progress, see DESIGN.md section 8 build order)"
